@@ -357,6 +357,8 @@ func extractFacts(args []string) {
 		extractUnicode(filepath.Join(filepath.Dir(*out), "Unicode.lean"))
 		// Go→Lean translator (trans*.go): Trans.lean, Trans<Pkg>.lean next to the facts; rejections are printed as `trans-reject …`
 		trWrite(*repo, filepath.Dir(*out))
+		// the same for the syntax layer (trans_syntax*.go): TransDirectives/TransScanner/TransParser.lean, TransSyntax.lean
+		tsWrite(*repo, filepath.Dir(*out))
 	}
 }
 
